@@ -208,11 +208,28 @@ def run(chk, prog):
                 if "Udp" in s:
                     udp.append(c)
         if udp:
-            has = any(re.search(r"context::Context::set_idle_timeout$", c.name or "") for c in f.calls)
-            chk.instance("config-chain", "%s:%s" % (f.file, f.line), "%s creates UDP sessions and sets their idle timeout" % f.path, has)
+            sit = [c for c in f.calls if re.search(r"context::Context::set_idle_timeout$", c.name or "")]
+            has = bool(sit)
+            # ... on every path: each hand-over of a UDP session to the router (enqueue) that follows a set_feature(Udp*) is reached only
+            # through a set_idle_timeout (a call placed in one arm of an if/else leaves the other kind of session with the TCP default)
+            enq = [c for c in f.calls if re.search(r"context::ContextRefOps::enqueue$", c.path or "")]
+            from ..flow import must_pass as _mp
+            for e in enq:
+                for u in udp:
+                    if e.bb in f.reach_from([u.bb]) and not _mp(f, [u.bb], [c.bb for c in sit], [e.bb]) and not any(f.dominates(c.bb, u.bb) for c in sit):
+                        has = False
+            all_udp_paths = True
+            if enq and has:
+                # every enqueue reachable from some Udp set_feature: also the paths that reach it through *another* Udp set_feature
+                for e in enq:
+                    starts = [u.bb for u in udp if e.bb in f.reach_from([u.bb])]
+                    if starts and not _mp(f, starts, [c.bb for c in sit], [e.bb]) and not all(any(f.dominates(c.bb, s_) for c in sit) for s_ in starts):
+                        all_udp_paths = False
+            has = has and all_udp_paths
+            chk.instance("config-chain", "%s:%s" % (f.file, f.line), "%s creates UDP sessions and sets their idle timeout on every path to enqueue" % f.path, has)
             if not has:
                 chk.finding("config-chain", f.key, "udp-session-timeout", "", "%s:%s" % (f.file, f.line),
-                            "%s creates a UDP session without set_idle_timeout(timeouts.udp): it idles with the TCP default" % f.path)
+                            "%s hands over a UDP session without set_idle_timeout(timeouts.udp) on some path: it idles with the TCP default" % f.path)
     # (1d) copy_bidi passes ctx.idle_timeout() to is_timeout
     cb = prog.body_of(prog.one(r"^copy::copy_bidi$"))
     it = [c for c in cb.calls if re.search(r"context::Context::idle_timeout$", c.name or "")]
